@@ -106,13 +106,14 @@ theorem accept_rangeproof_units {rps : List (Int × List (Option RangeProof))}
   exact RangeStructure.verifyProofStructure_units hv
 
 /-- (used by C11) The non-revocation proof of an accepted disclosure proof has bases `C_r`, `C_u`
-    that are present and units modulo `n`. -/
+    that are present, positive and coprime to `n` (units modulo `n`; they need not be reduced
+    below `n` — a refreshed prepared commitment may carry an unreduced `C_u`). -/
 theorem accept_nonrev_units {nr : NonRevProof}
     (h : p.verifyWith o kid pk ctx nonce issig i1 i2 = .ok true) (hnr : p.nonrev = some nr) :
     ∃ cr cu, nr.cr = some cr ∧ nr.cu = some cu ∧
-      0 < cr ∧ cr < pk.n ∧ Int.gcd cr pk.n = 1 ∧ 0 < cu ∧ cu < pk.n ∧ Int.gcd cu pk.n = 1 := by
-  obtain ⟨cr, cu, h1, h2, ⟨a1, a2, a3⟩, ⟨b1, b2, b3⟩⟩ := ProofD.accept_nonrev_units h hnr
-  exact ⟨cr, cu, h1, h2, a1, a2, a3, b1, b2, b3⟩
+      0 < cr ∧ Int.gcd cr pk.n = 1 ∧ 0 < cu ∧ Int.gcd cu pk.n = 1 := by
+  obtain ⟨cr, cu, h1, h2, ⟨a1, a3⟩, ⟨b1, b3⟩⟩ := ProofD.accept_nonrev_units h hnr
+  exact ⟨cr, cu, h1, h2, a1, a3, b1, b3⟩
 end
 
 /-! ### non-vacuity: a concrete accepted proof
